@@ -63,6 +63,15 @@ def check(seed):
             it = SparseDrugComboInteractionMCMCSample(W=t.W, V2=t.V2, precision=t.precision, single_effect_lookup={})
             wi = np.array([float(np.sum(t.W[int(s.sample_ids[r])] * (0 if s.treatment_ids[r, 0] == -1 else t.V2[s.treatment_ids[r, 0]]) * (0 if s.treatment_ids[r, 1] == -1 else t.V2[s.treatment_ids[r, 1]]))) for r in range(s.size)])
             if not np.allclose(it.predict_conditional_mean(s), wi, rtol=1e-9, atol=1e-12): return "interaction sample mean differs from reference"
+            # interaction sample viability: row-wise reference from the lookup table (single-agent effects; control maps to 1.0)
+            look = {(c, d): float(rng.uniform(0.05, 1.2)) for c in range(int(s.sample_ids.max()) + 1) for d in range(int(s.treatment_ids.max()) + 1)}
+            look.update({(c, -1): 1.0 for c in range(int(s.sample_ids.max()) + 1)})
+            it2 = SparseDrugComboInteractionMCMCSample(W=t.W, V2=t.V2, precision=t.precision, single_effect_lookup=look)
+            ref = np.array([float(np.clip(np.exp(wi[r] + np.log(np.clip(look[(int(s.sample_ids[r]), int(s.treatment_ids[r, 0]))] * look[(int(s.sample_ids[r]), int(s.treatment_ids[r, 1]))], 0.01, 0.99))), 0.01, 0.99)) for r in range(s.size)])
+            try: got = it2.predict_viability(s)
+            except Exception as e: return "interaction sample predict_viability raised %r on a two-treatment screen" % (e,)
+            if got.shape != (s.size,) or not np.allclose(got, ref, rtol=1e-9, atol=1e-12): return "interaction sample viability differs from the row-wise reference"
+            if not np.allclose(it2.predict_viability(sw), got, rtol=1e-9, atol=1e-12): return "interaction sample viability changes when the treatment columns are swapped"
         h = ThetaHolder(3); ts = [theta(rng) for _ in range(3)]
         for x in ts: h.add_theta(x)
         allm = predict_mean_all(s, h)
